@@ -71,6 +71,21 @@ def explore(ctx):
                     lines.append("EVAL 0 " + common.hexs("(import (%s))" % names[t]))
                 cases.append({"lines": lines, "graph": {"names": names, "edges": edges, "kinds": list(kinds)}, "how": how,
                               "history": hist, "nsetup": nsetup})
+    # a healthy library is healthy whatever its size and byte layout: files of more than 8 / 16 / 64 KiB with a 2-, 3- or
+    # 4-byte character lying across a power-of-two byte offset (in a comment), imported directly and through another library
+    for boundary in ([8192, 16384] if ctx.quick else [4096, 8192, 16384, 32768, 65536]):
+        for ch in ("\u00e9", "\u4e2d", "\U0001f600"):
+            for back in range(1, len(ch.encode())):
+                pad = boundary - back - 2
+                big = "; " + "x" * pad + ch + " end of header\n" + gen.library_text("big", [], "healthy")
+                assert big.encode()[boundary - back:boundary - back + len(ch.encode())] == ch.encode()
+                via = "(define-library (via) (export via-v) (import (scheme base) (big)) (begin (define via-v (list big-v))))"
+                lines = ["FILE %s %s %s" % (common.hexs("cwd"), common.hexs("big"), common.hexs(big)),
+                         "FILE %s %s %s" % (common.hexs("cwd"), common.hexs("via"), common.hexs(via)), "NEW 0 std"]
+                nsetup = len(lines)
+                lines += ["EVAL 0 " + common.hexs("(import (via))"), "EVAL 0 " + common.hexs("(import (big))"), "EVAL 0 " + common.hexs("via-v")]
+                cases.append({"lines": lines, "graph": {"names": ["via", "big"], "edges": [[0, 1]], "kinds": ["healthy", "healthy"]},
+                              "how": "files", "history": [0, 1], "nsetup": nsetup})
     # library files are located relative to the directory of the program file, whatever the working directory and
     # however the program is named: libraries next to the program, decoys of the same names elsewhere
     h = common.hexs
@@ -139,7 +154,7 @@ def explore(ctx):
         "rule": "every directed graph (self loops included) on 1 and 2 libraries%s x every assignment of node kinds (healthy, "
                 "missing, faulting body, fault in the middle of the body, wrong library name in the file, syntactically broken, not UTF-8, "
                 "the library second in its file after another library, after other top-level forms, defined twice in its file), libraries supplied "
-                "as files in the working directory and as registered sources, every edge written as one of the import-set shapes (the library alone; only / except / rename with an empty identifier list; prefix; only with an identifier), x histories of 1, 2 and 3 import attempts on "
+                "as files in the working directory and as registered sources, every edge written as one of the import-set shapes (the library alone; only / except / rename with an empty identifier list; prefix; only with an identifier), plus healthy library files of 8-64 KiB with a multi-byte character across a power-of-two byte offset, x histories of 1, 2 and 3 import attempts on "
                 "one interpreter%s; observable: outcome kind and location per attempt, compared model vs implementation; and "
                 "the outcome of every attempt is compared with the outcome of the same import on a fresh interpreter "
                 "(history independence); plus program files with the libraries next to them and decoy libraries of the same names "
